@@ -52,8 +52,8 @@ func init() {
 			}
 			return map[string]interface{}{"log_entries_in_store": 2, "stable_keys_in_store": 1, "payload_bytes": 2, "operations": "one per obligation (refinement step from an arbitrary corresponding state)"}
 		},
-		Outside:   []string{"close/reopen, kill/reopen, corruption recovery (LevelDB durability)", "JSON and protobuf byte formats", "ConvertToProto on a populated JSON database (needs the real decoders)"},
-		Functions: []string{"raftstore.(*LevelDBStore).FirstIndex", "LastIndex", "GetLog", "StoreLog", "StoreLogs", "StoreLogProto", "DeleteRange", "GetBulkIterator", "Set", "Get", "SetUint64", "GetUint64"},
+		Outside:   []string{"close/reopen, kill/reopen, corruption recovery (LevelDB durability)", "JSON and protobuf byte formats", "ConvertToProto of command entries (needs the robust.Message decoders, see C18); batches of more than 100 entries"},
+		Functions: []string{"raftstore.(*LevelDBStore).FirstIndex", "LastIndex", "GetLog", "StoreLog", "StoreLogs", "StoreLogProto", "DeleteRange", "GetBulkIterator", "Set", "Get", "SetUint64", "GetUint64", "ConvertToProto (non-command entries of a JSON database)"},
 		Rule:      "one case per store operation and encoding; a case is non-trivial when a feasible path reaches the probing assertions",
 	})
 	registerCheck(&CheckDef{
